@@ -22,7 +22,7 @@
                                (scaled) absolute coordinates, whatever the current `xbase`
                                (so base shifts between evaluations and the fit do not matter);
         `unscale_jacobian`   — an interpolant in scaled coordinates, un-scaled column-wise
-                               (solver.py:1164-1166), is the interpolant in user coordinates;
+                               (solver.py:1170-1172), is the interpolant in user coordinates;
         `unscale_regression` — the same for the least-squares fit (normal equations transfer);
         `jacobian_fits_user_points`, `jacobian_regression_user_points` — both steps combined;
         `jacobian_linear_eq_A`, `jacobian_linear_eq_A_regression` — for `r(x) = A x − b` the
